@@ -40,7 +40,7 @@ func Discharge(vcs []*FuncVC, opts RunOpts) {
 				to := opts.TimeoutS
 				solvers := opts.Solvers
 				if j.o.Cover {
-					to = 3
+					to = 1
 					solvers = solvers[:1]
 				}
 				if opts.KeepDir != "" {
@@ -96,7 +96,7 @@ func cmdVC(args []string) int {
 			}
 		}
 	}
-	Discharge(vcs, RunOpts{TimeoutS: 10, Solvers: []string{"z3-new", "z3", "cvc5"}, TmpDir: tmp, Jobs: 16, KeepDir: keep})
+	Discharge(vcs, RunOpts{TimeoutS: 30, Solvers: []string{"z3-new", "z3", "cvc5"}, TmpDir: tmp, Jobs: 8, KeepDir: keep})
 	bad := 0
 	for _, vc := range vcs {
 		sort.SliceStable(vc.obls, func(i, j int) bool { return vc.obls[i].Name < vc.obls[j].Name })
